@@ -946,7 +946,7 @@ impl TryFrom<&Natural> for u128 {
                 <= u128::BITS
         {
             let upper = mantissa.get(1).copied().unwrap_or_default();
-            return Ok(mantissa[0] as u128 | ((upper as u128) << u64::BITS));
+            return Ok((mantissa[0] as u128 | ((upper as u128) << u64::BITS)) << value.shl);
         }
         Err(super::NotRepresentable)
     }
